@@ -699,6 +699,27 @@ pub fn run_script<B: Backend>(backend: &mut B, lines: &mut dyn Iterator<Item = S
                     w.caches.remove(&(b, a));
                     out.push("forget ok".into());
                 }
+                "remove" => {
+                    // remove <client>: ClientState::remove_graph; the runner's peer caches of that client are dropped too
+                    let w = world.as_mut().unwrap();
+                    let c: usize = toks[1].parse().unwrap();
+                    let g = w.graph.unwrap();
+                    w.caches.retain(|k, _| k.0 != c && k.1 != c);
+                    match w.clients[c].remove_graph(g) {
+                        Ok(()) => out.push("remove ok".into()),
+                        Err(e) => out.push(format!("remove err {}", client_err(&e))),
+                    }
+                }
+                "warm" => {
+                    // warm <client>: compute (and print) the client's hello head now
+                    let w = world.as_mut().unwrap();
+                    let c: usize = toks[1].parse().unwrap();
+                    let g = w.graph.unwrap();
+                    match w.clients[c].hello_head(g) {
+                        Ok(a) => out.push(format!("warm {}", addr_s(a))),
+                        Err(e) => out.push(format!("warm err:{}", client_err(&e))),
+                    }
+                }
                 "feed" => {
                     // feed <dst> <src>: every command stored at <src>, parents first, added to <dst> in ONE
                     // transaction (a linear run of new commands lands in a single segment)
